@@ -9,7 +9,8 @@
    (2) a token is in the recovery set of a repetition/option n iff it is in the follow set of some
        dominator of n and can neither start nor follow the body of n. *)
 From Coq Require Import List Arith.
-From LV Require Import Sema Dominators DomFixed RecoverySpec.
+From LV Require Import Sema Dominators DomFixed RecoverySpec Cst Tree ABuild Runtime Exec Compile CompileLoop.
+Import ListNotations.
 
 Theorem C14_dominators_exact :
   forall pg start nns fuel d,
@@ -61,7 +62,33 @@ Theorem C14_end_of_input_is_recovered_or_followed :
     mem s (get rc n) = true \/ mem s (get fi (rid_of op)) = true \/ mem s (get fo (rid_of op)) = true.
 Proof. exact end_of_input_recovered. Qed.
 
+(* The loop the back end emits for a repetition or option (Compile.c_recover; the KB correspondence
+   ties it to src/backend/rust.rs output_recovering_operation) is left - without moving the cursor
+   or touching the tree, with at most one diagnostic - whenever the current token cannot start the
+   body and lies in the follow set or the recovery set of the construct.  With
+   C14_end_of_input_is_recovered_or_followed this is the property's last sentence: every repetition
+   and option is left when the end of input is reached.  For every program context, oracle,
+   environment, state, body and fuel. *)
+Theorem C14_compiled_loop_is_left_at_follow_and_recovery_tokens :
+  forall cx prog orc sm rec_of id op body il ic e st fuel,
+    tok_in (cur st) (pats (s_first sm) (rid_of op)) = false ->
+    tok_in (cur st) (pats (s_follow sm) id) = true \/ tok_in (cur st) (pats (s_recovery sm) id) = true ->
+    exists o e' st',
+      exec cx prog orc (10 + fuel) rec_of (c_recover sm id op body il ic) e st = XOk (o, e', st')
+      /\ pos st' = pos st /\ cstd st' = cstd st /\ cur st' = cur st /\ (o = ONormal \/ o = ORetNone).
+Proof. exact recover_loop_exits. Qed.
+
+Theorem C14_star_plus_option_compile_to_that_loop :
+  forall g sm ci cxr id op,
+    c_regex g sm ci cxr (RStar id op) = [c_recover sm id op (c_regex g sm ci cxr op) true (inch sm id)]
+    /\ c_regex g sm ci cxr (RPlus id op)
+       = c_regex g sm ci cxr op ++ [c_recover sm id op (c_regex g sm ci cxr op) true (inch sm id)]
+    /\ c_regex g sm ci cxr (ROpt id op) = [c_recover sm id op (c_regex g sm ci cxr op) false (inch sm id)].
+Proof. intros. repeat split. Qed.
+
 Print Assumptions C14_dominators_exact.
 Print Assumptions C14_recovery_sets_are_dominator_follow_sets.
 Print Assumptions C14_dominators_exact_without_certificate.
 Print Assumptions C14_end_of_input_is_recovered_or_followed.
+Print Assumptions C14_compiled_loop_is_left_at_follow_and_recovery_tokens.
+Print Assumptions C14_star_plus_option_compile_to_that_loop.
